@@ -64,7 +64,7 @@ def t2(ctx):
 
 
 @rule("C18-T3", "C18", lambda cfg: 3 if "memmap" in cfg else 1, "Memory::truncate: Vec arm copies exactly `allocated` bytes from the old into a new buffer of the new size; anon arm copies [..allocated]; "
-      "file arm calls set_len only to grow and re-maps with the new capacity (C06: a mapping that ends behind the end of the file loses what is written there)", also=("C06",))
+      "file arm calls set_len only to grow and re-maps with the new capacity (C06: a mapping that ends behind the end of the file loses what is written there)", also=("C06", ("C16", "key:(vec|anon)-copy$")))
 def t3(ctx):
     b = ctx.facts.one(r"^memory::Memory::<R, PR, H>::truncate$")
     ev, res = ctx.eval(b, no_inline=(r"to_mmap_options$",))
